@@ -1,5 +1,6 @@
 import Driver.Common
 import AslModel.HttpParse
+import AslModel.HttpRange
 /-! Model driver for C09 (HTTP request reader, server loop, Url). -/
 open Driver AslModel.HttpParse
 
@@ -91,6 +92,29 @@ def step (_ : Unit) (ts : List String) : Unit × String :=
             s!"status={r.1} len={r.2}"
         | .error f => showFault f
       | none => "bad-op"
+    | ["rng", k, h] => match k.toNat?, unhex h with
+      | some k, some v =>
+        let (path, n) : Bytes × Nat := match k % 3 with
+          | 0 => ([47, 97, 46, 116, 120, 116], 36)
+          | 1 => ([47, 101, 46, 98, 105, 110], 0)
+          | _ => ([47, 115, 117, 98, 47, 98, 46, 116, 120, 116], 4)
+        let d := [71, 69, 84, 32] ++ path ++ [32, 72, 84, 84, 80, 47, 49, 46, 49, 13, 10, 82, 97, 110, 103, 101, 58, 32] ++ v ++ [13, 10, 13, 10]
+        match read { inp := d } with
+        | .ok (q, s) =>
+          if s.err != 0 || s.closed || q.method.length == 0 || q.path.length == 0 || q.proto.length == 0 then "status=none"
+          else match rangeAnswer n q.headers with
+            | .ok .whole => s!"status=200 cr=- len={n} body={n}"
+            | .ok .unsat => s!"status=416 cr=bytes_*/{n} len=0 body=0"
+            | .ok (.part b e) => s!"status=206 cr=bytes_{b}-{e}/{n} len={e - b + 1} body={e - b + 1}"
+            | .error f => showFault f
+        | .error f => showFault f
+      | _, _ => "bad-op"
+    | ["upg", h, f] => match unhex h, unhex f with
+      | some hd, some fr => match upgradeHandOff { inp := hd ++ fr } with
+        | .ok (some (_, s')) => s!"ho=1 rest={brep s'.inp}"
+        | .ok none => "ho=0"
+        | .error e => showFault e
+      | _, _ => "bad-op"
     | ["url", h] => match unhex h with
       | some d => match parseUrl d with
         | .ok u => s!"proto={brep u.protocol} host={brep u.host} port={u.port} path={brep u.path}"
